@@ -38,6 +38,8 @@ pub fn requirements(tier: Tier) -> Vec<(&'static str, u64)> {
         ("batches:Cow", 300),
         ("batches:PackageType", 300),
         ("set-size-checks", 1_500),
+        ("escape-sweep:batches", 10),
+        ("escape-sweep:values", 4_000),
     ]
 }
 
@@ -436,7 +438,59 @@ fn make_batch(r: &mut Rng, typed: bool) -> Vec<Src> {
     srcs
 }
 
+/// One field swept over every single ASCII character and every (control character, hex
+/// digit) pair, everything else fixed: values that differ only where an escape is written.
+/// `%0` + `1`, `%01` and `%1` + `0` must stay three different strings.
+fn escape_sweep_batch(field: usize, typed: bool) -> Vec<Src> {
+    let base = Ft { ty: if typed { "cargo".into() } else { "t".into() }, ns: "s".into(), name: "n".into(), ver: "1".into(), quals: vec![("k".into(), "v".into())], sub: "p".into() };
+    let mut texts: Vec<String> = (0u8..128).map(|b| (b as char).to_string()).collect();
+    for hi in 0u8..16 {
+        for h in "0123456789ABCDEFabcdef".chars() {
+            texts.push(format!("{}{h}", hi as char));
+        }
+    }
+    // the same after a plain character, and doubled (state carried between characters)
+    for b in [0u8, 1, 9, 0x0f, 0x10, 0x1f, 0x20, 0x7f] {
+        texts.push(format!("a{}", b as char));
+        texts.push(format!("{}{}", b as char, b as char));
+        texts.push(format!("{}a", b as char));
+    }
+    texts
+        .into_iter()
+        .map(|t| {
+            let mut f = base.clone();
+            match field {
+                0 => f.ns = t,
+                1 => f.name = t,
+                2 => f.ver = t,
+                3 => f.quals[0].1 = t,
+                _ => f.sub = t,
+            }
+            Src::Build { hist: f.hist(), borrowed: false }
+        })
+        .collect()
+}
+
 pub fn run(ctx: &mut Ctx) {
+    for (i, (field, tp)) in (0..5usize).flat_map(|f| ["String", "PackageType"].map(|tp| (f, tp))).enumerate() {
+        if !ctx.mine(i as u64) {
+            continue;
+        }
+        let srcs = escape_sweep_batch(field, tp == "PackageType");
+        let (pairs, _equal, n, f) = run_batch(tp, &srcs);
+        ctx.st.evaluations += pairs;
+        ctx.st.add("pairs-compared", pairs);
+        ctx.st.add("escape-sweep:values", n);
+        ctx.st.count("escape-sweep:batches");
+        if let Some((f, items)) = f {
+            let items = crate::shrink::shrink_vec(&items, &mut |cs| matches!(run_batch(tp, cs).3, Some((g, _)) if g.kind == f.kind));
+            let g = run_batch(tp, &items).3.map(|(g, _)| g).unwrap_or(f);
+            ctx.st.violation("C19.algebra", format!("C19.algebra:{}:{}", g.kind, tp), g.detail, json!({"type_parameter": tp, "items": items}));
+        }
+    }
+    if ctx.worker == 0 {
+        ctx.st.exhaustive.push(json!({"name": "each of namespace, name, version, qualifier value, subpath swept over every ASCII character and every (control character, hex digit) pair, all pairs of the resulting values compared; String and PackageType", "size": 10 * 504u64 * 504, "completed": true}));
+    }
     let mut r = ctx.rng("c19");
     for b in 0..ctx.share(2_000, 100_000) {
         let tp = ["String", "SmallString", "Cow", "PackageType"][(b % 4) as usize];
